@@ -40,6 +40,7 @@ Inductive tev :=
 | TSet (l : list (key * attrs))
 | TSetRet
 | TSetRejected
+| TAt (t : N)                      (* milliseconds since the start of the schedule, logged before timed events *)
 | TAccept (c : N)
 | TOpen (c asn hold : N)           (* AS number (4-octet capability) and hold time of the OPEN the session sent on c *)
 | TOpenSent (c : N)                (* the peer is about to send ITS OPEN on c (it may delay it) *)
@@ -57,10 +58,13 @@ Inductive tev :=
    goroutines), runs ONE of abort / Set / Close on it and reports the state
    before and after; the model's step must give the same state *)
 Record sst := { x_closed : bool; x_conn : bool; x_adv : list (key * attrs); x_pend : option (list (key * attrs)) }.
-Inductive sop := OAbort | OSet (l : list (key * attrs)) | OSetInvalid | OClose.
+Inductive sop := OAbort | OSet (l : list (key * attrs)) | OSetInvalid | OClose
+  | OReaderDrop (current : bool)     (* consumeBGP(conn) returns; conn is / is not s.conn *)
+  | OKeepalive (ok : bool).          (* s.sendKeepalive() with a working / broken connection *)
 
 Inductive scase :=
 | STrace (id : N) (g : cfg) (t : list tev)
+| SBackoff (id : N) (ops : list bool) (obs : list N)   (* backoff.Duration()/Reset() sequence, observed delays in ms *)
 | SStep (id : N) (g : cfg) (pre : sst) (op : sop) (post : sst).
 
 Record cstate := { cs_id : N; cs_j : nat; cs_tbl : table; cs_live : bool;
@@ -68,16 +72,33 @@ Record cstate := { cs_id : N; cs_j : nat; cs_tbl : table; cs_live : bool;
 Record rstate := { sets : list table;          (* S_0 = empty, S_1, ... in call order *)
                    nret : nat;                  (* number of Set calls that have returned *)
                    accepted : list (N * nat);   (* TAccept seen, with [nret] at that moment *)
+                   now : N;                     (* last TAt *)
+                   bo : N;                      (* model backoff state (bo_duration / bo_reset) *)
+                   pend : option (N * N);       (* failed attempt: (time, delay slept before the next dial) *)
+                   hsdone : list N;             (* connections whose handshake verdict was seen *)
+                   kalast : list (N * N);       (* per connection: time of the handshake / last KEEPALIVE *)
                    late : list N;               (* connections whose peer OPEN was sent after Close had returned *)
                    conns : list cstate;         (* established connections *)
                    closedret : bool }.
 
-Definition rstate0 : rstate := {| sets := [empty]; nret := 0; accepted := []; late := []; conns := []; closedret := false |}.
+Definition rstate0 : rstate := {| sets := [empty]; nret := 0; accepted := []; now := 0; bo := bo_reset; pend := None; hsdone := []; kalast := []; late := []; conns := []; closedret := false |}.
 
 Definition find_conn (c : N) (r : rstate) : option cstate := find (fun x => cs_id x =? c) (conns r).
 Definition set_conn (x : cstate) (r : rstate) : rstate :=
-  {| sets := sets r; nret := nret r; accepted := accepted r; late := late r;
+  {| sets := sets r; nret := nret r; accepted := accepted r; now := now r; bo := bo r; pend := pend r; hsdone := hsdone r; kalast := kalast r; late := late r;
      conns := x :: filter (fun y => negb (cs_id y =? cs_id x)) (conns r); closedret := closedret r |}.
+
+(* timing slack (ms) granted to the peer's logging lag when checking LOWER bounds *)
+Definition slack : N := 500.
+(* a connect() attempt failed now: run() sleeps bo_duration before dialling again *)
+Definition fail_now (r : rstate) (c : N) : rstate :=
+  {| sets := sets r; nret := nret r; accepted := accepted r; now := now r; bo := snd (bo_duration (bo r));
+     pend := Some (now r, fst (bo_duration (bo r))); hsdone := c :: hsdone r; kalast := kalast r;
+     late := late r; conns := conns r; closedret := closedret r |}.
+Definition ok_now (r : rstate) (c : N) : rstate :=
+  {| sets := sets r; nret := nret r; accepted := accepted r; now := now r; bo := bo_reset;
+     pend := None; hsdone := c :: hsdone r; kalast := (c, now r) :: kalast r;
+     late := late r; conns := conns r; closedret := closedret r |}.
 
 (* smallest index j' >= j with [ok (nth j' sets)] *)
 Fixpoint find_from (ok : table -> bool) (l : list table) (j : nat) : option nat :=
@@ -93,21 +114,34 @@ Definition tbl_eq_on (U : list key) (a b : table) : bool := forallb (fun k => oe
 Definition rstep (g : cfg) (r : rstate) (e : tev) : option rstate :=
   match e with
   | TSet l => if forallb (fun p => mem (fst p) (universe g)) l
-              then Some {| sets := sets r ++ [map_of l]; nret := nret r; accepted := accepted r; late := late r; conns := conns r; closedret := closedret r |}
+              then Some {| sets := sets r ++ [map_of l]; nret := nret r; accepted := accepted r; now := now r; bo := bo r; pend := pend r; hsdone := hsdone r; kalast := kalast r; late := late r; conns := conns r; closedret := closedret r |}
               else None
-  | TSetRet => Some {| sets := sets r; nret := S (nret r); accepted := accepted r; late := late r; conns := conns r; closedret := closedret r |}
+  | TSetRet => Some {| sets := sets r; nret := S (nret r); accepted := accepted r; now := now r; bo := bo r; pend := pend r; hsdone := hsdone r; kalast := kalast r; late := late r; conns := conns r; closedret := closedret r |}
   | TSetRejected => Some r
+  | TAt t => Some {| sets := sets r; nret := nret r; accepted := accepted r; now := t; bo := bo r; pend := pend r;
+                     hsdone := hsdone r; kalast := kalast r; late := late r; conns := conns r; closedret := closedret r |}
   | TAccept c => if closedret r then None
-                 else Some {| sets := sets r; nret := nret r; accepted := (c, nret r) :: accepted r; late := late r; conns := conns r; closedret := false |}
+                 (* backoff (backoff_delay_spec): after a failed attempt the next dial comes no
+                    earlier than the model's delay *)
+                 else if match pend r with Some (tf, d) => now r + slack <? tf + d | None => false end then None
+                 else Some {| sets := sets r; nret := nret r; accepted := (c, nret r) :: accepted r; now := now r; bo := bo r; pend := None; hsdone := hsdone r; kalast := kalast r; late := late r; conns := conns r; closedret := false |}
   | TOpen c asn hold =>
     (* C17_session_open_decodes: the configured AS number and hold time (90 only for nil) *)
     if mem c (map fst (accepted r)) && (asn =? my_asn g) && (hold =? session_hold g) then Some r else None
   | TOpenSent c =>
-    Some {| sets := sets r; nret := nret r; accepted := accepted r;
+    Some {| sets := sets r; nret := nret r; accepted := accepted r; now := now r; bo := bo r; pend := pend r;
+            hsdone := hsdone r; kalast := kalast r;
             late := if closedret r then c :: late r else late r; conns := conns r; closedret := closedret r |}
   | TKeepalive c ph =>
-    (* no keepalive timer when the negotiated hold time is 0 *)
-    match keepalive_period g ph with None => None | Some _ => Some r end
+    (* no keepalive timer when the negotiated hold time is 0; otherwise ticks are
+       keepalive_period seconds apart, the first one a period after the handshake *)
+    match keepalive_period g ph, find (fun p => fst p =? c) (kalast r) with
+    | Some per, Some (_, t0) =>
+      if now r + slack <? t0 + per * 1000 then None
+      else Some {| sets := sets r; nret := nret r; accepted := accepted r; now := now r; bo := bo r; pend := pend r;
+                   hsdone := hsdone r; kalast := (c, now r) :: kalast r; late := late r; conns := conns r; closedret := closedret r |}
+    | _, _ => None
+    end
   | THandshake c asn fb acc =>
     match find (fun p => fst p =? c) (accepted r) with
     | None => None
@@ -126,8 +160,8 @@ Definition rstep (g : cfg) (r : rstate) (e : tev) : option rstate :=
            holds s.mu across the dial, so those Sets are in s.new/advertised) and
            (b) every set a message logged so far was justified by *)
         let j0 := fold_left Nat.max (map cs_j (conns r)) n0 in
-        Some (set_conn {| cs_id := c; cs_j := j0; cs_tbl := empty; cs_live := true; cs_fb := fb |} r)
-      else Some r
+        Some (set_conn {| cs_id := c; cs_j := j0; cs_tbl := empty; cs_live := true; cs_fb := fb |} (ok_now r c))
+      else Some (fail_now r c)
     end
   | TUpd c k v w =>
     match find_conn c r with
@@ -156,9 +190,11 @@ Definition rstep (g : cfg) (r : rstate) (e : tev) : option rstate :=
   | TDrop c =>
     match find_conn c r with
     | Some x => Some (set_conn {| cs_id := c; cs_j := cs_j x; cs_tbl := cs_tbl x; cs_live := false; cs_fb := cs_fb x |} r)
-    | None => Some r
+    | None =>
+      (* a connection that ends before any verdict: the dial / OPEN exchange failed *)
+      if mem c (map fst (accepted r)) && negb (mem c (hsdone r)) && negb (closedret r) then Some (fail_now r c) else Some r
     end
-  | TCloseRet => Some {| sets := sets r; nret := nret r; accepted := accepted r; late := late r; conns := conns r; closedret := true |}
+  | TCloseRet => Some {| sets := sets r; nret := nret r; accepted := accepted r; now := now r; bo := bo r; pend := pend r; hsdone := hsdone r; kalast := kalast r; late := late r; conns := conns r; closedret := true |}
   | TFinal c tbl =>
     match find_conn c r with
     | Some x => if cs_live x && negb (closedret r)
@@ -199,12 +235,18 @@ Definition model_op (g : cfg) (s : sess) (o : sop) : option sess :=
   | OSet l => option_map ws (step g w (ESet l))
   | OSetInvalid => option_map ws (step g w ESetRejected)
   | OClose => option_map ws (step g w EClose)
+  | OReaderDrop cur => option_map ws (step g w (EReaderDrop (if cur then 1 else 2)))
+  | OKeepalive true => Some s
+  | OKeepalive false => match step g w EKeepaliveFail with Some w' => Some (ws w') | None => Some s end
   end.
 
-Definition case_id (c : scase) : N := match c with STrace i _ _ | SStep i _ _ _ _ => i end.
+Definition case_id (c : scase) : N := match c with STrace i _ _ | SStep i _ _ _ _ | SBackoff i _ _ => i end.
+Fixpoint listN_eqb (a b : list N) : bool :=
+  match a, b with [] , [] => true | x :: a, y :: b => (x =? y) && listN_eqb a b | _, _ => false end.
 Definition case_ok (c : scase) : bool :=
   match c with
   | STrace _ g t => ends_final t && replay g rstate0 t
+  | SBackoff _ ops obs => listN_eqb (bo_run bo_reset ops) obs
   | SStep _ g pre o post =>
     match model_op g (sess_of pre) o with
     | Some s' => sess_eq_on (universe g) s' (sess_of post)
